@@ -140,7 +140,8 @@ class Run:
         return swap(flow[1]), swap(flow[2])
 
     # -- one attempt ------------------------------------------------------------------------------
-    def calls(self):
+    def calls(self, plain: bool = False):
+        """plain: the same pair binds without the fourth frame (no ratify_cmd, none required, no 10E0 on offer)."""
         from ramses_rf import Command
 
         flow = self.fl["flow"]
@@ -150,8 +151,10 @@ class Run:
         pay = flow[0][46:]
         offer_codes = [c for c in (pay[i: i + 4] for i in range(2, len(pay), 12)) if c != "1FC9"]
         confirm = flow[2][48:52] or None
-        ratify = Command(flow[3]) if self.ratify else None
-        return (lambda: self.r._wait_for_binding_request(accept_codes, idx=idx, require_ratify=self.ratify),
+        ratify = Command(flow[3]) if self.ratify and not plain else None
+        if plain:
+            offer_codes = [c for c in offer_codes if c != "10E0"]
+        return (lambda: self.r._wait_for_binding_request(accept_codes, idx=idx, require_ratify=self.ratify and not plain),
                 lambda: self.s._initiate_binding_process(offer_codes, confirm_code=confirm, ratify_cmd=ratify))
 
     def abstract_pkt(self, p: Any, pos: int) -> str:
@@ -187,7 +190,8 @@ class Run:
                 "state": type(ctx.state).__name__}
 
     async def round_(self, do_r: bool, do_s: bool) -> dict[str, dict]:
-        call_r, call_s = self.calls()
+        # "plain2": the second binding of the pair is one without the fourth frame, after one with it
+        call_r, call_s = self.calls(plain=self.round == 2 and bool(self.sc.get("plain2")))
         tasks = {}
         if do_r:
             tasks["R"] = asyncio.ensure_future(self.attempt("R", call_r))
@@ -248,6 +252,8 @@ class Run:
         self.states = {"R": type(self.r._bind_context.state).__name__, "S": type(self.s._bind_context.state).__name__}
         self.round = 2
         two = await self.round_(True, True)
+        br2, bs2 = self.r._bind_context.is_binding, self.s._bind_context.is_binding
+        st2 = {"R": type(self.r._bind_context.state).__name__, "S": type(self.s._bind_context.state).__name__}
         self.obs = {
             "r1": one["R"]["out"], "s1": one["S"]["out"], "r2": two["R"]["out"], "s2": two["S"]["out"],
             "br": int(br), "bs": int(bs), "rt": one["R"]["tuple"], "st": one["S"]["tuple"],
@@ -255,6 +261,7 @@ class Run:
             "hang": int(bool(self.hang)),
             "e_r1": one["R"]["state"], "e_s1": one["S"]["state"], "e_r2": two["R"]["state"], "e_s2": two["S"]["state"],
             "a_r": self.states["R"], "a_s": self.states["S"],
+            "br2": int(br2), "bs2": int(bs2), "a_r2": st2["R"], "a_s2": st2["S"],
         }
         self.end_states = {"R1": one["R"]["state"], "S1": one["S"]["state"], "R2": two["R"]["state"], "S2": two["S"]["state"]}
         self.loop_exc = [repr(c.get("exception"))[:80] for c in self.loop.exc]  # type: ignore[attr-defined]
